@@ -7,7 +7,7 @@ CFG = dict(
          "upper/lower(k) with CountingWindow(1..3); plain CountingWindow with and without key; stream-table JOIN inner/left, JOIN + analytic, JOIN + window, JOIN + computed key). "
          "Rows carry id/v/k/dev (NULL, missing, float variants), nested maps/lists and sometimes a column named like something the engine injects (p, upper(k), __analytic_0__, c_v, s). "
          "Ops: 2-5 EmitSync calls with a deep re-read of the caller's map; one Emit run of 3-8 rows re-read after quiescence together with the rows the sink received; "
-         "one paired run: A and B alone (cold caches) vs fresh A and B interleaved by a random schedule (cold caches), outputs compared. distinct = distinct (cfg, ops)",
+         "one paired run: A and B alone (cold caches) vs fresh A and B interleaved by a random schedule (cold caches), outputs compared. distinct = distinct (cfg, ops) Added late: one case in four creates every instance (also in the child processes) with WithSchema and a default for an absent column. Every fifth case runs under WithHighPerformance (`preset high`), for C05/C06/C12/C13/C14/C16/C20 another fifth under WithLowLatency (`preset low`); every seventh case follows a noise prelude (failing statements, malformed rows, panicking sink / function in other instances).",
     assumptions=["what the analytic engine, expression bridge, table lookup, WHERE and projection compute is abstract in the theorems (C14, C06, C16, C05 cover them); only who-writes-where is modelled",
                  "nested maps/slices are shared by reference between the caller's row, the working copy and SELECT * results; the model has no write through a nested value because the code has none "
                  "(checked by the deep before/after comparison, not proved)",
